@@ -592,6 +592,8 @@ def unit_tree(ctx, fixed):
             if faults and isinstance(got, list):
                 got[1] = []          # which advice assertions are merged is compared on fault-free runs only
             show = dict(shape=name, tree=[enc_tree.describe(k) for k in kids], sp=so, keys=list(keys), faults=faults, policy=policy)
+            if name.startswith("random-"):
+                show["nodes"] = kids          # enough to rebuild the document in a replay
             cases.append(dict(id=n, coq=coq_tree_case(case, kids, ids, faults, policy, fixed), impl=got, show=show))
             runs.append((name, kids, so, keys, faults, policy, got, info, show))
             n += 1
@@ -915,7 +917,7 @@ def replay(ctx, payload):
     try:
         with env.Clock(NOW):
             if "shape" in inp:
-                kids = dict(tree_shapes(ctx))[inp["shape"]]
+                kids = inp["nodes"] if "nodes" in inp else dict(tree_shapes(ctx))[inp["shape"]]
                 xml, ids = enc_tree.render_response(kids), enc_tree.id_table(kids)
                 case = pipeline.SPCase(enc_keys=tuple(inp["keys"]), **inp["sp"])
                 got, info = with_faults(inp["faults"], inp["policy"], lambda: run_sp_tree(case, xml, ids))
@@ -928,6 +930,10 @@ def replay(ctx, payload):
                 got, err = run_idp_case(c)
                 print("identity:", c["ident"])
                 print("emitted:", got if not isinstance(got, str) else got[:6000], err or "")
+                if isinstance(got, str):
+                    for cat, strs in secrets_of(c["ident"]).items():
+                        print("readable in the emitted bytes (%s):" % cat, [x for x in strs if enc_tools.readable_in(got, x)])
+                    print("structure:", enc_tools.shape(got)[0])
             elif "mutation" in inp and "delivered" in inp:
                 a = mutated(inp["mutation"], inp["sig"])
                 spec = pipeline.R(assertions=[a]) if inp["delivered"] == "plain" else pipeline.R(assertions=[], encrypted=[dict(a, enc_for=inp["delivered"])])
